@@ -309,6 +309,19 @@ class ExprMixin:
             f = {ast.Add: operator.add, ast.Sub: operator.sub, ast.Mult: operator.mul}.get(type(op))
             if f:
                 return f(a, b)
+        if isinstance(op, ast.Mult):
+            # 'c' * n (or n * 'c') for a one-character literal c: the text of max(n, 0) characters c (native encoding)
+            for x, y in ((a, b), (b, a)):
+                if isinstance(x, str) and len(x) == 1 and (isinstance(y, int) or (isinstance(y, SV) and y.ty == INT)) \
+                        and not isinstance(y, bool):
+                    if isinstance(y, int):
+                        return x * y
+                    n = y.t
+                    r = z3.Const(ctx.fresh_name("rep"), z3.StringSort())
+                    k = z3.Int(ctx.fresh_name("k"))
+                    ctx.assume(z3.Length(r) == z3.If(n > 0, n, 0))
+                    ctx.assume(z3.ForAll([k], z3.Implies(z3.And(0 <= k, k < z3.Length(r)), z3.SubString(r, k, 1) == z3.StringVal(x))))
+                    return SV(STR, r)
         if isinstance(op, ast.Add):
             for x, y in ((a, b), (b, a)):
                 if is_str(y) and isinstance(x, SV) and x.ty.name == "Opt" and x.ty.args[0] in (STR, ASTR):
@@ -379,7 +392,11 @@ class ExprMixin:
         if ty is None:
             raise Unsupported("list concat of untyped lists")
         out = Cell("list", sym=SV(ty, ctx.term(a, ty)), fresh=True)
-        self.list_extend(out, b)
+        out.temp = True          # (a new list being built by this expression: extending it is no mutation of anything that existed)
+        try:
+            self.list_extend(out, b)
+        finally:
+            out.temp = False
         return out
 
     def set_union(self, a, b):
@@ -529,6 +546,14 @@ class ExprMixin:
             return z3.Or(*[ctx.zbool(p) for p in parts])
         if isinstance(container, SV) and container.ty.name in ("List", "Set", "Map"):
             container = ctx.wrap(container.t, container.ty)
+        if isinstance(container, SV) and container.ty.name == "Ref":
+            # an object whose class defines __contains__ under contract (or as a model): `x in obj` is that call
+            cls0 = container.ty.args[0].name
+            from . import contract as _C
+            hit = self.engine.method_contract(self, cls0, "__contains__") or _C.EXTERNS.get(f"{cls0}.__contains__")
+            if hit is not None:
+                r = self.call_method(container, "__contains__", [item], {}, None)
+                return ctx.zbool(ctx.truth(r)) if not isinstance(r, bool) else r
         if isinstance(container, SV) and container.ty.name == "Ref" and isinstance(item, str):
             # dict-like object (an issue): optional keys are modelled by has_<key> fields
             cls = container.ty.args[0].name
